@@ -851,12 +851,15 @@ pub struct SiteOut {
     pub wrong: Vec<(Read, String)>,
     /// the reads that failed
     pub failed_reads: Vec<Read>,
+    /// reads during which the store panicked (counted among the failed)
+    pub panicked: u64,
     pub soft: SoftStats,
 }
 
 /// Reads everything through a FRESH `EncryptedStore` (cold cache, same key)
-/// over a fresh inner store holding `content`.
-pub async fn check_content(sc: &Scenario, content: &Content, touched: &[String], strict: bool) -> SiteOut {
+/// over a fresh inner store holding `content`. A panic inside a read is
+/// caught and counted as a failed read (it is not an answer).
+pub fn check_content(sc: &Scenario, content: &Content, touched: &[String], strict: bool) -> SiteOut {
     let inner = restore(content);
     let store = if strict { enc_strict(inner) } else { enc(inner) };
     let mut reads = Vec::new();
@@ -867,13 +870,24 @@ pub async fn check_content(sc: &Scenario, content: &Content, touched: &[String],
     let mut out = SiteOut::default();
     for rd in &reads {
         out.reads += 1;
-        match do_read(sc, store.as_ref(), rd, &mut out.soft).await {
-            Verdict::Original => out.original += 1,
-            Verdict::Failed => {
+        let mut soft = SoftStats::default();
+        let v = std::panic::catch_unwind(std::panic::AssertUnwindSafe(|| {
+            vcore::util::block_on(do_read(sc, store.as_ref(), rd, &mut soft))
+        }));
+        out.soft.meta_field_deviations += soft.meta_field_deviations;
+        out.soft.listing_entries_skipped += soft.listing_entries_skipped;
+        match v {
+            Ok(Verdict::Original) => out.original += 1,
+            Ok(Verdict::Failed) => {
                 out.failed += 1;
                 out.failed_reads.push(rd.clone());
             }
-            Verdict::Wrong(why) => out.wrong.push((rd.clone(), why)),
+            Ok(Verdict::Wrong(why)) => out.wrong.push((rd.clone(), why)),
+            Err(_) => {
+                out.failed += 1;
+                out.panicked += 1;
+                out.failed_reads.push(rd.clone());
+            }
         }
     }
     out
